@@ -8,7 +8,8 @@ CHECKS=${@:-${SID%%-*}}
 WT=/tmp/st/$SID.$$
 mkdir -p /tmp/st
 git -C /repo worktree add -q --detach $WT HEAD || exit 9
-git -C $WT apply /verif/seeded/$SID/patch.diff || { echo "patch does not apply"; git -C /repo worktree remove --force $WT; exit 9; }
+P=/verif/seeded/$SID/patch.diff; [ -f /verif/seeded/$SID/patch.head.diff ] && P=/verif/seeded/$SID/patch.head.diff
+git -C $WT apply $P || { echo "patch does not apply"; git -C /repo worktree remove --force $WT; exit 9; }
 rc=0
 for c in $CHECKS; do
   out=$(cd /verif && VERIF_REPO=$WT VERIF_EVIDENCE_DIR=/tmp/st/ev.$SID.$$ ./check $c --tier ${TIER:-quick} 2>&1); r=$?
